@@ -62,7 +62,7 @@ type JumpIf struct {
 	falseLabel Label
 }
 
-// JumpTo is an unconditional jump to a label, inserted to bridge a long conditional jump.
+// JumpTo is an unconditional jump to a label.
 type JumpTo struct {
 	index Index
 	label Label
@@ -110,6 +110,12 @@ func (p *Program) JmpIf(cond bpf.JumpTest, val uint32, trueLabel Label, falseLab
 	p.instructions = append(p.instructions, inst)
 }
 
+// Jmp inserts an unconditional jump to the label.
+func (p *Program) Jmp(label Label) {
+	p.bridges = append(p.bridges, JumpTo{index: p.currentIndex(), label: label})
+	p.instructions = append(p.instructions, bpf.Jump{})
+}
+
 // SetLabel sets the label to the latest instruction.
 func (p *Program) SetLabel(label Label) {
 	index := p.currentIndex()
@@ -118,10 +124,15 @@ func (p *Program) SetLabel(label Label) {
 
 // Ret inserts a return instruction.
 func (p *Program) Ret(action Action) {
+	p.instructions = append(p.instructions, bpf.RetConstant{Val: returnValue(action)})
+}
+
+// returnValue is the value a filter returns for the action.
+func returnValue(action Action) uint32 {
 	if action == ActionErrno {
 		action |= Action(errnoEPERM)
 	}
-	p.instructions = append(p.instructions, bpf.RetConstant{Val: uint32(action)})
+	return uint32(action)
 }
 
 // LdHi inserts an instruction to load the most significant 32-bit of the 64-bit argument.
